@@ -23,14 +23,14 @@ def apply_rewrites(src, notes):
                       notes, "HashMap -> model_map::HashMap (planes.rs)")
         if n:
             with open(p, "a") as f:
-                f.write("\n#[cfg(kani)]\nuse crate::verif::model_map::HashMap;\n")
+                f.write("\n#[cfg(kani)]\nuse crate::verif::model_map::HashMap;\n#[cfg(not(kani))]\nuse StdHashMapUnusedByVerif as HashMap;\n")
     p = os.path.join(src, "counters.rs")
     if os.path.exists(p):
         n = _sub_file(p, r"\bcollections::BTreeMap\b(?!\s+as)", "collections::BTreeMap as StdBTreeMapUnusedByVerif",
                       notes, "BTreeMap -> model_map::BTreeMap (counters.rs)")
         if n:
             with open(p, "a") as f:
-                f.write("\n#[cfg(kani)]\nuse crate::verif::model_map::BTreeMap;\n")
+                f.write("\n#[cfg(kani)]\nuse crate::verif::model_map::BTreeMap;\n#[cfg(not(kani))]\nuse StdBTreeMapUnusedByVerif as BTreeMap;\n")
     # --- float remainder: Kani lowers `f64 % f64` to IEEE remainder, not fmod ------------------
     # every `expr % <float literal>` in the decoder sources becomes kfmod(expr, lit), an exact
     # integer-valued fmod that asserts its own domain (see harness/root/fmod.rs)
